@@ -29,6 +29,12 @@ BetaDiscreteDistribution::BetaDiscreteDistribution(size_t n, double alpha, doubl
   intMinMax_->setLowerBound(0, true);
   intMinMax_->setUpperBound(1, true);
 
+  // same end points as after a parameter update (see fireParameterChanged)
+  if (alpha_ <= 1)
+    intMinMax_->setLowerBound(precision(), false);
+  if (beta_ <= 1)
+    intMinMax_->setUpperBound(1 - precision(), false);
+
   diffln_ = exp(RandomTools::lnBeta(alpha_ + 1, beta_) - RandomTools::lnBeta(alpha_, beta_));
   discretize();
 }
@@ -41,11 +47,16 @@ void BetaDiscreteDistribution::fireParameterChanged(const ParameterList& paramet
   alpha_ = getParameterValue("alpha");
   beta_ = getParameterValue("beta");
 
+  // the end points of an unrestricted domain depend on the current shapes only, not on earlier ones
   if (alpha_ <= 1 && intMinMax_->getLowerBound() == 0)
     intMinMax_->setLowerBound(precision(), false);
+  else if (alpha_ > 1 && intMinMax_->getLowerBound() == precision())
+    intMinMax_->setLowerBound(0, true);
 
   if (beta_ <= 1 && intMinMax_->getUpperBound() == 1)
     intMinMax_->setUpperBound(1 - precision(), false);
+  else if (beta_ > 1 && intMinMax_->getUpperBound() == 1 - precision())
+    intMinMax_->setUpperBound(1, true);
 
   diffln_ = exp(RandomTools::lnBeta(alpha_ + 1, beta_) - RandomTools::lnBeta(alpha_, beta_));
   discretize();
